@@ -39,6 +39,43 @@ INT_RANGES = {
 
 # library functions without a panic path for any argument (read from their sources); result unknown
 TOTAL_CALLS = {
+    "std::iter::Iterator::any",
+    "std::iter::Iterator::all",
+    "std::iter::Iterator::find",
+    "std::iter::Iterator::count",
+    "std::iter::Iterator::map",
+    "std::iter::Iterator::filter",
+    "std::iter::Iterator::enumerate",
+    "std::iter::Iterator::copied",
+    "std::iter::Iterator::cloned",
+    "std::iter::Iterator::take_while",
+    "std::iter::Iterator::rev",
+    "std::slice::<impl [T]>::contains",
+    "core::slice::<impl [T]>::contains",
+    "std::slice::<impl [T]>::starts_with",
+    "std::slice::<impl [T]>::ends_with",
+    "std::slice::<impl [T]>::first",
+    "std::slice::<impl [T]>::last",
+    "std::slice::<impl [T]>::is_empty",
+    "core::slice::<impl [T]>::is_empty",
+    "std::slice::<impl [T]>::split_first",
+    "std::option::Option::unwrap_or",
+    "std::option::Option::unwrap_or_default",
+    "std::option::Option::unwrap_or_else",
+    "std::result::Result::unwrap_or",
+    "std::result::Result::unwrap_or_default",
+    "std::result::Result::unwrap_or_else",
+    "std::str::from_utf8",
+    "core::str::from_utf8",
+    "std::vec::Vec::extend_from_slice",
+    "std::vec::Vec::len",
+    "std::vec::Vec::is_empty",
+    "bytes::Bytes::copy_from_slice",
+    "bytes::Bytes::from",
+    "bytes::Bytes::new",
+    "std::string::String::new",
+    "std::string::String::from",
+    "std::string::String::len",
     "std::ops::Try::branch",
     "std::ops::FromResidual::from_residual",
     "std::result::Result::map_err",
@@ -1199,7 +1236,38 @@ def m_try_from_int(run, bb, st, t, args, ret, site):
     return ret(("tag", "std::result::Result", None, {"0": TOP}))
 
 
+def m_slice_iter(run, bb, st, t, args, ret, site):
+    a = run.ip._deref(st, args[0]) if args and args[0][0] == "ref" else (args[0] if args else TOP)
+    if a[0] == "slice":
+        return ret(("tag", "slice_iter", None, {"n": v_int(a[1])}))
+    return ret(TOP)
+
+
+def m_position(run, bb, st, t, args, ret, site):
+    """Iterator::position on a slice iterator: Some(i) with 0 <= i < remaining length, or None; the
+    predicate closure is analysed in place for its own obligations"""
+    ip = run.ip
+    it = ip._deref(st, args[0]) if args and args[0][0] == "ref" else (args[0] if args else TOP)
+    for a in args[1:]:
+        run._run_closure_arg(st, a, site)
+    outs = []
+    if it[0] == "tag" and it[1] == "slice_iter" and it[3]["n"][0] == "int":
+        n = it[3]["n"][1]
+        s1 = st.copy()
+        iv = ip.fresh_int(s1, "posn[%s]" % site, 0, MAX_LEN)
+        s1.assume_le(iv[1].sub(n), -1)
+        if not s1.bottom:
+            outs += _ret_in(run, t, s1, ("tag", "std::option::Option", "Some", {"0": iv}))
+        outs += _ret_in(run, t, st.copy(), ("tag", "std::option::Option", "None", {}))
+        return outs
+    return ret(("tag", "std::option::Option", None, {"0": TOP}))
+
+
 MODELS = {
+    "core::slice::iter": m_slice_iter,
+    "core::slice::<impl [T]>::iter": m_slice_iter,
+    "std::slice::<impl [T]>::iter": m_slice_iter,
+    "std::iter::Iterator::position": m_position,
     "bytes::Buf::remaining": m_remaining,
     "bytes::Buf::has_remaining": m_has_remaining,
     "bytes::Buf::advance": m_advance,
